@@ -111,41 +111,48 @@ def run(ctx):
     st_bb = slash_tests[0][0] if slash_tests else None
     ctx.ob("R15.2", "slash-test-over-cmd", ok, pe.loc(st_bb or 0), "the slash test must run over the bytes of the command name (the executable when one is named), not over argv[0] or anything else")
     is_st = lambda c: c[0] == "call" and c[1] == st_name and (len(c) < 4 or c[3] == st_bb)
-    c1 = None
-    c1_is_filter = False
-    t_e = bool_edges(pe, Tp, is_st, True)
-    f_e = bool_edges(pe, Tp, is_st, False)
-    sp_locals = [i for i, l in enumerate(pe.locals) if l.get("name") == "search_path"]
-    for l in sp_locals:
-        for (bb, si, r) in pe.defs().get(l, []):
-            if r["k"] == "partial":
-                continue
-            v = Tp.rvalue(r) if r["k"] != "call" else ("call", M.callee_str(r["t"]["f"]), tuple(Tp.operand(a) for a in r["t"]["args"]), bb)
-            if v == ("agg", ("adt", "std::option::Option", "None"), ()):
-                ctx.ob("R15.2", "slash=>no-search", dominated_by_edges(pe, bb, t_e), pe.loc(bb), "search_path = None only when the name contains a slash")
-            else:
-                okv = v[0] == "call" and v[1] in ("std::option::Option::<T>::and_then", "std::option::Option::<T>::filter") and v[2][0][0] == "call" and v[2][0][1] == "std::env::var_os" and v[2][0][2][0][1] == "PATH" \
-                    and v[2][1][0] == "agg" and v[2][1][1][0] == "closure"
-                if okv:
-                    c1 = prog.fn(v[2][1][1][1])
-                    c1_is_filter = v[1].endswith("::filter")
-                ctx.ob("R15.2", "no-slash=>PATH", okv and dominated_by_edges(pe, bb, f_e), pe.loc(bb), "search_path = %s (must be var_os(\"PATH\") filtered for emptiness, on the no-slash edge)" % M.term_str(v)[:120])
-    okc1 = False
-    if c1 and c1_is_filter:
-        # filter(|p| !p.is_empty()) / filter(|p| p.len() != 0): keep exactly the non-empty value
-        T1 = M.Terms(c1)
-        r1 = M.noref(T1.local(0))
-        isp = lambda u: M.peel(u) == ("param", 2, c1.local_name(2)) or (M.peel(u)[0] == "call" and M.peel(M.peel(u)[2][0]) == ("param", 2, c1.local_name(2)))
-        okc1 = (r1[0] == "un" and r1[1] == "Not" and r1[2][0] == "call" and r1[2][1].endswith("::is_empty") and isp(r1[2][2][0])) or \
-            (r1[0] == "bin" and r1[1] == "Ne" and const_of(r1[3]) == 0 and r1[2][0] == "call" and r1[2][1].endswith("::len") and isp(r1[2][2][0])) or \
-            (r1[0] == "bin" and r1[1] == "Gt" and const_of(r1[3]) == 0 and r1[2][0] == "call" and r1[2][1].endswith("::len") and isp(r1[2][2][0]))
-    elif c1:
-        T1 = M.Terms(c1)
-        e = bool_edges(c1, T1, lambda c: c[0] == "bin" and c[1] == "Eq" and const_of(c[3]) == 0 and M.contains(c[2], lambda u: u[0] == "call" and u[1] == "std::ffi::OsStr::len"), True)
-        nn = [bb for bb in c1.live_blocks() for s in c1.blocks[bb]["stmts"] if s["k"] == "assign" and s["p"]["l"] == 0 and s["r"].get("variant") == "None"]
-        sm = [bb for bb in c1.live_blocks() for s in c1.blocks[bb]["stmts"] if s["k"] == "assign" and s["p"]["l"] == 0 and s["r"].get("variant") == "Some"]
-        okc1 = bool(nn) and bool(sm) and all(dominated_by_edges(c1, b, e) for b in nn) and all(not dominated_by_edges(c1, b, e) for b in sm)
-    ctx.ob("R15.2", "empty-PATH=>no-search", okc1, c1.loc(0) if c1 else "", "an empty PATH is treated as absent")
+    # what PrepExec::new receives as search_path, decided by evaluating prep_exec under each answer of its own tests (whichever way the
+    # selection is spelled: if/else, match, and_then, filter, early return ...)
+    pn_calls = pe.calls_to(lambda f: M.callee_str(f) == "posix::PrepExec::new")
+    NONE = ("agg", ("adt", "std::option::Option", "None"), ())
+    is_varos = lambda u: u[0] == "call" and u[1] == "std::env::var_os" and M.noref(u[2][0])[0] == "const" and M.noref(u[2][0])[1] == "PATH"
+    def is_path_payload(u):
+        u = M.noref(u)
+        return u[0] == "field" and u[2] == "0" and u[1][0] == "downcast" and u[1][2] == "Some" and is_varos(M.noref(u[1][1]))
+    is_some_path = lambda a_: a_[0] == "agg" and a_[1][:3] == ("adt", "std::option::Option", "Some") and is_path_payload(a_[2][0])
+    def sp_under(assume):
+        """alternatives of the search_path argument under the given answers: assume maps a recogniser to a value"""
+        def af(t_):
+            if not t_:
+                return None
+            for pred_, val_ in assume:
+                if pred_(M.noref(t_)) or pred_(t_):
+                    return val_
+            return None
+        E_ = M.Explore(pe, assume_fn=af)
+        if not pn_calls or pn_calls[0][0] not in E_.blocks:
+            return None
+        return set(M.alts(M.Terms(pe, blocks=E_.blocks).operand(pn_calls[0][1]["args"][3])))
+    is_len_of_path = lambda c: c[0] == "call" and c[1].endswith("::len") and is_path_payload(M.peel(M.strip(c[2][0]))) or \
+        (c[0] == "call" and c[1].endswith("::len") and M.contains(c[2][0], is_path_payload) and not M.contains(c[2][0], lambda u: u[0] == "call" and u[1] not in
+                                                                                                            ("std::ffi::OsString::as_os_str", "<std::ffi::OsString as std::ops::Deref>::deref") and not is_varos(u)))
+    is_empty_of_path = lambda c: c[0] == "call" and c[1].endswith("::is_empty") and M.contains(c[2][0], is_path_payload)
+    ctx.ob("R15.2", "search_path.site", len(pn_calls) == 1, pe.loc(0), "prep_exec builds its PrepExec in one place (found %d)" % len(pn_calls))
+    if len(pn_calls) == 1 and len(slash_tests) == 1:
+        with_slash = sp_under([(is_st, 1)])
+        ctx.ob("R15.2", "slash=>no-search", with_slash == {NONE}, pe.loc(pn_calls[0][0]), "a name containing a slash is never searched for: search_path must be None then (found %s)"
+               % ([M.term_str(x)[:60] for x in with_slash] if with_slash is not None else "PrepExec::new not reached"))
+        no_slash = sp_under([(is_st, 0)])
+        okv = no_slash is not None and any(is_some_path(a_) for a_ in no_slash) and all(a_ == NONE or is_some_path(a_) for a_ in no_slash)
+        ctx.ob("R15.2", "no-slash=>PATH", okv, pe.loc(pn_calls[0][0]), "without a slash search_path is the value of var_os(\"PATH\"), or None (found %s)"
+               % ([M.term_str(x)[:80] for x in no_slash] if no_slash is not None else "PrepExec::new not reached"))
+        empty = sp_under([(is_st, 0), (is_varos, 1), (is_len_of_path, 0), (is_empty_of_path, 1)])
+        filled = sp_under([(is_st, 0), (is_varos, 1), (is_len_of_path, 1), (is_empty_of_path, 0)])
+        unset = sp_under([(is_st, 0), (is_varos, 0)])
+        okc1 = empty == {NONE} and filled is not None and len(filled) == 1 and is_some_path(next(iter(filled))) and unset == {NONE}
+        ctx.ob("R15.2", "empty-PATH=>no-search", okc1, pe.loc(pn_calls[0][0]),
+               "an empty PATH is treated as absent, a non-empty one is searched, an unset one is not (empty: %s, non-empty: %s, unset: %s)"
+               % tuple([M.term_str(x)[:50] for x in v_] if v_ is not None else None for v_ in (empty, filled, unset)))
     # exec(): the two branches are selected by self.search_path
     is_sp = lambda t: M.noref(t) == ("field", selfp, "search_path")
     some_e = variant_edges(ex, T, is_sp, 1, [0, 1], "std::option::Option<")
